@@ -452,8 +452,8 @@ func CondsOnEdgeTo(p, s *ssa.BasicBlock) []Cond {
 func Returns(fn *ssa.Function) []*ssa.Return {
 	var out []*ssa.Return
 	for _, b := range fn.Blocks {
-		if len(b.Instrs) == 0 {
-			continue
+		if len(b.Instrs) == 0 || b == fn.Recover {
+			continue // the recover block is entered only after a recovered panic
 		}
 		if r, ok := b.Instrs[len(b.Instrs)-1].(*ssa.Return); ok {
 			out = append(out, r)
